@@ -36,6 +36,9 @@ WORK = os.path.join(ROOT, "autotraits_work")
 EVID = os.path.join(ROOT, "evidence")
 REPLAYS = os.path.join(ROOT, "replays")
 REPO = "/repo"
+if os.environ.get("FCV_REPO") and ROOT != "/verif":
+    # sensitivity runs of a snapshot copy against a scratch repository (see check.py)
+    REPO = os.environ["FCV_REPO"]
 
 CONFIGS = {"std": '["std"]', "alloc": '["alloc"]'}
 
